@@ -416,10 +416,19 @@ func keyClass(k string) string {
 	return "other"
 }
 
+// lockNames: lock keys of known logical node ids are reported under the node's trace name.
 func (c *L2) lockNames(ks []*sop.LockKey) []any {
 	out := []any{}
 	for _, k := range ks {
-		out = append(out, k.Key)
+		name := k.Key
+		if strings.HasPrefix(name, "lock:") {
+			if id, err := sop.ParseUUID(name[5:]); err == nil {
+				if n := c.H.Known(id); n != "" {
+					name = n
+				}
+			}
+		}
+		out = append(out, name)
 	}
 	return out
 }
